@@ -4,34 +4,100 @@ Oracle: scipy.ndimage.label + an independent BFS (small images) as reference
 component labelling; partition equality via canonical relabelling; dense,
 sparse and splat variants on the same pixels; OpenMP relabel loop at 1..64
 threads; independence from the previous content of the label buffer.
+
+Every case dimension (shape, fill class, threshold, stored-pixel policy, thread differential) is drawn from the
+case's own rng(seed, "C11", idx), so every combination can occur; a few residues of idx are stratified so that the
+classes that must be seen in every run (4-connected checkerboard, isolated-pixel lattice, large spiral, sparse
+coordinates >= 32768) are guaranteed, and run.require_counter turns their absence into "inconclusive".
 """
+import io
 import numpy as np
 from .. import imgs
 from ..common import rng
 
 TECHNIQUE = ("runtime reference-model monitor: connected components by scipy.ndimage.label and an independent BFS; "
              "partition-equality checker on cImageD11.connectedpixels (8/4 connectivity), sparse_connectedpixels, "
-             "sparse_connectedpixels_splat, sparseframe.sparse_connected_pixels; thread-count and buffer-poison differentials")
-LEVEL_TEXT = ("Exploration: shapes 2x2..512x512 incl. 2xN/Nx2 and non-square; fill classes empty/full/Bernoulli/blobs/comb/U-comb/"
-              "vee/spiral/diagonal/border; 4-connected checkerboards up to 512x512 (131072 provisional labels, several reallocations of "
-              "the disjoint-set table); values equal to the threshold. Every output is checked for the background rule, label range 1..n, "
-              "return value and partition equality with the reference; dense relabel loop re-run at 1..64 threads and with poisoned label "
-              "buffers.")
+             "sparse_connectedpixels_splat, sparseframe.sparse_connected_pixels (explicit and metadata threshold, float32 and "
+             "uint16 pixels), labelimage.labelpeaks, SparseScan.cplabel; thread-count and buffer-poison differentials")
+LEVEL_TEXT = ("Exploration: shapes 2x2..512x512 incl. 2xN/Nx2, non-square and 2x65534/65534x2/3x40000 (sparse coordinates "
+              ">= 32768); fill classes empty/full/Bernoulli/blobs/comb/U-comb/vee/spiral/diagonal/border/checkerboard/"
+              "isolated-pixel lattice, drawn independently of the shape (spirals, full and empty images up to 512x512); more than "
+              "16384 provisional labels (several reallocations of the disjoint-set table) are required to be seen on each of the "
+              "dense 4-connected, dense 8-connected, sparse and splat routes; thresholds incl. values float32 cannot represent "
+              "with pixels one ulp either side; sparse frames that store pixels <= threshold (incl. frames with nothing above "
+              "it). Every output is checked for the background rule, label range 1..n, return value and partition equality with "
+              "the reference; dense relabel loop re-run at 1..64 threads and with poisoned label buffers.")
 LEVEL_NOTE = ("Trusts scipy.ndimage.label (cross-checked against the harness BFS on every image up to 64x64); the splat variant is "
-              "compared on above-threshold pixels only because it leaves the labels of the others untouched (observation).")
+              "compared on above-threshold pixels only because it leaves the labels of the others untouched (observation). A "
+              "threshold that float32 cannot represent is decided only on pixels that are on the same side of the threshold and "
+              "of its float32 rounding (the interface takes a C float). Sparse frames with zero stored pixels are rejected by the "
+              "f2py wrapper (ValueError) and are not part of the workload. labelimage.labelpeaks is additionally decided on every "
+              "frame of C12 (key frame:2d-labels).")
 
 RULE = ("a case = (shape, fill class, threshold, connectivity); non-trivial = at least two components and one component of >= 2 "
         "pixels; distinct = (shape, fill class, connectivity, hash of mask)")
 
 THREADS = (1, 2, 3, 8, 16, 64)
 
+SMALL = [(2, 2), (2, 3), (3, 2), (2, 17), (17, 2), (3, 3), (5, 7), (8, 8), (16, 31), (33, 16), (64, 64), (63, 65)]
+BIG = [(128, 96), (200, 256), (256, 256), (300, 300), (512, 512), (511, 513), (2, 4096), (4096, 2)]
+WIDE = [(2, 65534), (65534, 2), (3, 40000), (40000, 3)]          # sparse row / column indices >= 32768
+KINDS = ["bernoulli", "bernoulli", "bernoulli", "blobs", "blobs", "checker", "comb", "ucomb", "diag", "vee", "spiral",
+         "empty", "full", "border", "lattice"]
+COARSE_THR = [0.0, 10.0, -3.0, 1000.5]
+# thresholds that float32 cannot represent (0.1, 1e-3 and 123.456 round up, 0.7 and 2^24+1 round down)
+FINE_THR = [0.1, 0.7, 1e-3, 123.456, 16777217.0]
+_spirals = {}
 
-def shapes_for(tier, r, idx):
-    small = [(2, 2), (2, 3), (3, 2), (2, 17), (17, 2), (3, 3), (5, 7), (8, 8), (16, 31), (33, 16), (64, 64), (63, 65)]
-    big = [(128, 96), (200, 256), (256, 256), (512, 512), (511, 513), (2, 4096), (4096, 2)]
-    if idx % 9 == 8:
-        return big[(idx // 9) % len(big)]
-    return small[idx % len(small)]
+
+def gen_mask(r, shape, kind):
+    if kind == "lattice":        # isolated pixels: one provisional label per pixel for every connectivity and route
+        m = np.zeros(shape, bool)
+        m[::2, ::2] = True
+        return m
+    if kind == "spiral":
+        n = min(shape)
+        if n not in _spirals:
+            _spirals[n] = imgs.spiral(n)
+        m = np.zeros(shape, bool)
+        m[:n, :n] = _spirals[n]
+        return m
+    return imgs.gen_mask(r, shape, kind)
+
+
+def draw_case(tier, r, idx):
+    """(shape, kind): stratified residues first, everything else from the case rng"""
+    large = (512, 512) if tier == "thorough" or idx % 74 in (5, 23) else (300, 300)
+    if idx % 37 == 5:
+        return large, "checker"        # 4-connected: one provisional label per pixel
+    if idx % 37 == 23:
+        return large, "lattice"        # 8-connected and sparse routes: > 16384 provisional labels
+    if idx % 37 == 31:
+        return (BIG[int(r.integers(2, 6))] if tier == "thorough" else (256, 256)), "spiral"
+    if idx % 41 == 7:
+        return WIDE[int(r.integers(len(WIDE)))], str(r.choice(["bernoulli", "comb", "full", "blobs", "checker", "lattice",
+                                                                 "border"]))
+    if r.random() < 1 / 9.0:
+        shape = BIG[int(r.integers(len(BIG)))]
+    else:
+        shape = SMALL[int(r.integers(len(SMALL)))]
+    return shape, KINDS[int(r.integers(len(KINDS)))]
+
+
+def image_fine(r, mask, thr):
+    """float32 image around a threshold that float32 cannot represent.  t32 = float32(thr) is the nearest float, so
+    every float strictly above t32 is > thr and every float strictly below t32 is < thr (thr lies between t32 and
+    its neighbour on one side, closer to t32).  The pixel value t32 itself is used only when t32 <= thr: then it is
+    "not above" both for the real threshold and for its float32 rounding.  Positive floats order like their bits."""
+    t32 = np.float32(thr)
+    assert t32 > 0
+    base = int(np.array(t32).view(np.int32))
+    lo0 = 0 if float(t32) <= thr else 1
+    hi = base + r.integers(1, 64, mask.shape)
+    lo = base - r.integers(lo0, 5, mask.shape)
+    img = np.where(mask, hi, lo).astype(np.int32).view(np.float32)
+    assert ((img.astype(np.float64) > thr) == mask).all() and ((img > t32) == mask).all()
+    return img
 
 
 def check_labels(run, V, route, labels, n, mask, con8, ref=None):
@@ -60,17 +126,22 @@ def check_labels(run, V, route, labels, n, mask, con8, ref=None):
         V(route + ":partition", "labels do not induce the connected-component partition")
 
 
-def one_case(run, seed, idx, mods):
-    cImageD11, sparseframe = mods
+def one_case(run, seed, idx, mods, tier=None):
+    cImageD11, sparseframe, labelimage = mods
+    tier = tier or run.tier
     r = rng(seed, "C11", idx)
-    shape = shapes_for(run.tier, r, idx)
-    kind = imgs.MASK_KINDS[(idx // 3) % len(imgs.MASK_KINDS)]
-    if idx % 37 == 5:
-        shape, kind = ((512, 512) if run.tier == "thorough" or idx % 74 == 5 else (300, 300)), "checker"
-    mask = imgs.gen_mask(r, shape, kind)
-    thr = float(r.choice([0.0, 10.0, -3.0, 1000.5]))
-    img = imgs.image_from_mask(r, mask, thr)
-    desc = dict(index=idx, shape=shape, kind=kind, threshold=thr)
+    shape, kind = draw_case(tier, r, idx)
+    mask = gen_mask(r, shape, kind)
+    fine = r.random() < 0.2
+    if fine:
+        thr = float(FINE_THR[int(r.integers(len(FINE_THR)))])
+        img = image_fine(r, mask, thr)
+        run.count("fine_threshold_cases")
+    else:
+        thr = float(COARSE_THR[int(r.integers(len(COARSE_THR)))])
+        img = imgs.image_from_mask(r, mask, thr)
+    threads = r.random() < (0.5 if max(shape) > 65 else 1 / 3.0)
+    desc = dict(index=idx, shape=shape, kind=kind, threshold=thr, tier=tier)
 
     def V(key, what):
         run.violation(key, what, desc)
@@ -87,7 +158,12 @@ def one_case(run, seed, idx, mods):
     sizes = np.bincount(refs[True][0].ravel())[1:] if n8 else np.array([])
     run.case((shape, kind, thr, hash(mask.tobytes())), nontrivial=(n8 >= 2 and sizes.max() >= 2),
              sample=dict(desc, components8=int(n8), components4=int(refs[False][1]), pixels=int(mask.sum())))
+    # the number of provisional labels is at least the number of components: > 16384 components on a route means
+    # that route went through the reallocation of the disjoint-set table
     run.setmax("max_components", int(refs[False][1]))
+    run.setmax("max_components8_dense", int(n8))
+    if max(shape) >= 256 and kind in ("spiral", "full", "empty"):
+        run.count("large_%s_images" % kind)
     # ---- dense, both connectivities, poisoned label buffer, thread counts
     base = {}
     for con8 in (True, False):
@@ -99,7 +175,9 @@ def one_case(run, seed, idx, mods):
                 check_labels(run, V, "connectedpixels(con8=%d)" % con8, lab, n, mask, con8, refs[con8])
             elif n != base[con8][1] or not np.array_equal(lab, base[con8][0]):
                 V("connectedpixels:buffer-dependent", "result depends on the previous content of the labels array")
-        if idx % 3 == 0:
+        if threads:
+            if max(shape) >= 256:
+                run.count("thread_runs_large_images")
             for nt in THREADS:
                 cImageD11.cimaged11_omp_set_num_threads(nt)
                 lab = np.zeros(shape, np.int32)
@@ -113,12 +191,31 @@ def one_case(run, seed, idx, mods):
     n = cImageD11.connectedpixels(img, lab, thr)
     if n != base[True][1] or not np.array_equal(lab, base[True][0]):
         V("connectedpixels:default-connectivity", "default call is not 8-connected")
-    # ---- sparse variants (8-connected) on the same pixels; the sparse frame may also hold pixels <= threshold
-    if shape[0] < 65535 and shape[1] < 65535 and mask.any():
-        extra = mask | (r.random(shape) < 0.1) if idx % 2 else mask
-        fr = sparseframe.from_data_mask(extra.astype(np.int8), img, {})
+    # labelimage.labelpeaks (8-connected, labels in lio.blim)
+    if r.random() < 0.25:
+        lio = labelimage.labelimage(shape, fileout=io.StringIO(), sptfile=io.StringIO())
+        lio.labelpeaks(img, thr)
+        run.count("labelpeaks_runs")
+        check_labels(run, V, "labelimage.labelpeaks", lio.blim, lio.npk, mask, True, refs[True])
+    # ---- sparse variants (8-connected) on the same pixels; the sparse frame may also hold pixels <= threshold:
+    # policy 0 stores exactly the pixels above threshold, 1 adds 10% others, 2 stores every pixel, 3 (only when
+    # nothing is above threshold) stores 30% of the pixels - a frame with stored pixels and no component
+    policy = int(r.integers(0, 3))
+    if not mask.any():
+        policy = 3
+    stored = {0: mask, 1: None, 2: np.ones(shape, bool), 3: None}[policy]
+    if stored is None:
+        stored = mask | (r.random(shape) < (0.1 if policy == 1 else 0.3))
+        if policy == 3 and not stored.any():
+            stored[0, 0] = True
+    if shape[0] < 65535 and shape[1] < 65535 and stored.any():
+        fr = sparseframe.from_data_mask(stored.astype(np.int8), img, {})
         sel = mask[fr.row, fr.col]
         v = fr.pixels["intensity"].astype(np.float32)
+        if not sel.any():
+            run.count("sparse_frames_nothing_above_threshold")
+        if int(fr.row.max()) >= 32768 or int(fr.col.max()) >= 32768:
+            run.count("sparse_frames_coordinate_ge_32768")
         for poison in (0, 99):
             sl = np.full(fr.nnz, poison, np.int32)
             ns = cImageD11.sparse_connectedpixels(v, fr.row, fr.col, thr, sl)
@@ -127,13 +224,21 @@ def one_case(run, seed, idx, mods):
             check_labels(run, V, "sparse_connectedpixels", dense, ns, mask, True, refs[True])
             if (sl[~sel] != 0).any():
                 V("sparse_connectedpixels:background-labelled", "sparse pixel not above threshold labelled")
-        # python wrapper
+        run.setmax("max_components8_sparse", int(n8))
+        # python wrapper, explicit threshold
         nw = sparseframe.sparse_connected_pixels(fr, threshold=thr)
         dense = np.zeros(shape, np.int64)
         dense[fr.row, fr.col] = fr.pixels["connectedpixels"]
         check_labels(run, V, "sparseframe.sparse_connected_pixels", dense, nw, mask, True, refs[True])
         if fr.meta["connectedpixels"]["nlabel"] != nw:
             V("sparseframe:nlabel", "nlabel metadata != return value")
+        # python wrapper, threshold taken from the metadata of the data array: must be the same labelling
+        fr.meta["intensity"]["threshold"] = thr
+        nm = sparseframe.sparse_connected_pixels(fr, label_name="cp_meta", threshold=None)
+        run.count("metadata_threshold_runs")
+        if nm != nw or not np.array_equal(fr.pixels["cp_meta"], fr.pixels["connectedpixels"]):
+            V("sparseframe:metadata-threshold", "threshold=None (taken from frame.meta) labels differently from the same "
+              "explicit threshold (%d vs %d labels)" % (nm, nw))
         # splat variant, scratch Z poisoned
         Z = np.full(shape[0] * shape[1] + 2 * shape[0] + 2 * shape[1] + 4, 0x5A5A5A, np.int32)
         sl = np.zeros(fr.nnz, np.int32)
@@ -141,7 +246,22 @@ def one_case(run, seed, idx, mods):
         dense = np.zeros(shape, np.int64)
         dense[fr.row[sel], fr.col[sel]] = sl[sel]
         check_labels(run, V, "sparse_connectedpixels_splat", dense, nsp, mask, True, refs[True])
+        run.setmax("max_components8_splat", int(n8))
         run.count("sparse_runs")
+    # ---- uint16 frame through from_data_cut (stores pixels > cut) and the wrapper with a threshold >= cut
+    if not fine and thr >= 0 and shape[0] < 65535 and shape[1] < 65535 and r.random() < 0.3:
+        u16 = np.ascontiguousarray(np.clip(img, 0, 65535).astype(np.uint16))
+        mask_u = u16.astype(np.float64) > thr
+        cut = int(r.choice([0, int(thr) // 2, int(thr)]))
+        if (u16 > cut).any():
+            fru = sparseframe.from_data_cut(u16, cut)
+            nu = sparseframe.sparse_connected_pixels(fru, threshold=thr)
+            run.count("uint16_frames")
+            if fru.pixels["intensity"].dtype != np.uint16:
+                run.inconc("from_data_cut no longer yields uint16 pixels")
+            dense = np.zeros(shape, np.int64)
+            dense[fru.row, fru.col] = fru.pixels["connectedpixels"]
+            check_labels(run, V, "sparse_connected_pixels(uint16)", dense, nu, mask_u, True)
 
 
 def scan_case(run, seed, idx, sparseframe):
@@ -150,15 +270,21 @@ def scan_case(run, seed, idx, sparseframe):
     import os, tempfile, shutil
     from ..common import WORK
     r = rng(seed, "C11", "scan", idx)
-    shape = [(8, 9), (32, 20), (64, 64)][idx % 3]
+    shape = [(8, 9), (32, 20), (64, 64), (2, 300), (130, 70)][int(r.integers(5))]
     nfr = int(r.integers(2, 9))
     thr = float(r.choice([0.0, 10.0]))
     frames = []
     for k in range(nfr):
-        kind = "empty" if (k == 1 or r.random() < 0.15) else imgs.MASK_KINDS[int(r.integers(len(imgs.MASK_KINDS)))]
+        u = r.random()
+        kind = "empty" if (k == 1 or u < 0.15) else imgs.MASK_KINDS[int(r.integers(len(imgs.MASK_KINDS)))]
         above = imgs.gen_mask(r, shape, kind)
         img = imgs.image_from_mask(r, above, thr)
-        stored = above | (r.random(shape) < 0.1) if kind != "empty" else above   # stored pixels may be <= threshold
+        if kind == "empty" and ((k == 1 and idx % 2 == 0) or u < 0.07):
+            stored = r.random(shape) < 0.2          # stored pixels, none above the threshold
+            stored[0, 0] = True
+            run.count("scan_frames_stored_none_above")
+        else:
+            stored = above | (r.random(shape) < 0.1) if kind != "empty" else above   # stored pixels may be <= threshold
         frames.append((stored, img, above))
     desc = dict(index=idx, route="SparseScan.cplabel", shape=shape, nframes=nfr, threshold=thr)
     run.case(("scan", shape, nfr, idx), nontrivial=True, sample=desc if idx < 2 else None)
@@ -201,13 +327,14 @@ def scan_case(run, seed, idx, sparseframe):
 
 
 def check(run, replay=None):
-    from ImageD11 import cImageD11, sparseframe
-    mods = (cImageD11, sparseframe)
+    from ImageD11 import cImageD11, sparseframe, labelimage
+    mods = (cImageD11, sparseframe, labelimage)
     if replay is not None:
         if replay["case"].get("route") == "SparseScan.cplabel":
             scan_case(run, replay["seed"], replay["case"]["index"], sparseframe)
         else:
-            one_case(run, replay["seed"], replay["case"]["index"], mods)
+            one_case(run, replay["seed"], replay["case"]["index"], mods,
+                     tier=replay["case"].get("tier") or replay.get("tier"))
         run.nontrivial.update(["replay", "replay2"])
         return
     n = 400 if run.tier == "quick" else 8000
@@ -216,6 +343,7 @@ def check(run, replay=None):
     for idx in range(12 if run.tier == "quick" else 300):
         scan_case(run, run.seed, idx, sparseframe)
     run.require_counter("sparsescan_runs", 10)
+    run.require_counter("scan_frames_stored_none_above", 3)
     run.extra["thread_counts"] = list(THREADS)
     import os
     if not os.environ.get("VERIF_ASAN_RERUN"):
@@ -226,4 +354,16 @@ def check(run, replay=None):
     run.require_counter("label_arrays_checked", 1000)
     run.require_counter("sparse_runs", 100)
     run.require_counter("thread_runs", 100)
-    run.require_counter("max_components", 16385)
+    run.require_counter("thread_runs_large_images", 2)
+    # label-table reallocation (> 16384 provisional labels) must have been seen on every route
+    run.require_counter("max_components", 16385)             # dense, 4-connected (checkerboard)
+    run.require_counter("max_components8_dense", 16385)      # dense, 8-connected (lattice)
+    run.require_counter("max_components8_sparse", 16385)
+    run.require_counter("max_components8_splat", 16385)
+    run.require_counter("large_spiral_images", 1)
+    run.require_counter("sparse_frames_nothing_above_threshold", 3)
+    run.require_counter("sparse_frames_coordinate_ge_32768", 3)
+    run.require_counter("fine_threshold_cases", 20)
+    run.require_counter("metadata_threshold_runs", 100)
+    run.require_counter("uint16_frames", 10)
+    run.require_counter("labelpeaks_runs", 20)
